@@ -301,7 +301,7 @@ func init() {
 			addCloseScenario(t, c, 5)
 			return c
 		},
-		Oracles: []oracleFn{oC08},
+		Oracles: []oracleFn{oC08, oC08StuckWait},
 		Foreign: []oracleFn{oDeadlock("C03"), oLivelock("C03")},
 		NonTrivial: func(ix *Index) (bool, []string) {
 			cl := classesOf(ix)
